@@ -119,6 +119,7 @@ CONCRETISERS = {
     "feeder.FeedOnce": _FEED,
     "witness.Proof).Marshal": ("internal/witness", "zz_verif_replay_test.go", "replay/proof_replay_test.go", "TestVerifReplayProof", lambda m: {"K": int(m.get("gk", 0)) if isinstance(m.get("gk", 0), int) else 0}),
     "witness.Proof).Unmarshal": ("internal/witness", "zz_verif_replay_test.go", "replay/proof_replay_test.go", "TestVerifReplayProof", lambda m: {"K": int(m.get("gk", 0))}),
+    "feedbastion.bastionClient).Update": ("cmd/feedbastion", "zz_verif_replay_test.go", "replay/feedbastion_replay_test.go", "TestVerifReplayFeedBastion", lambda m: {"any": True}),
     "bastion.readLine": ("internal/feeder/bastion", "zz_verif_replay_test.go", "replay/parsebody_replay_test.go", "TestVerifReplayParseBody", lambda m: {"any": True}),
     "bastion.parseBody": ("internal/feeder/bastion", "zz_verif_replay_test.go", "replay/parsebody_replay_test.go", "TestVerifReplayParseBody", lambda m: {"any": True}),
     "sumdb.FeedLog$1": _SUMDB,
